@@ -169,3 +169,39 @@ Theorem C01_refuted_universe_violates_QI : ~ QI_model_decl 4 0 s0d U_chg.
 Proof. exact refuted_universe_violates_QI. Qed.
 Theorem C01_changed_prefix_universe_satisfies_QI : QI_model_decl 4 0 s0d Ud.
 Proof. exact changed_prefix_universe_satisfies_QI. Qed.
+
+(* ------------------------------------------------------------------ node level: C04 composed with C01 (BFT/EndToEnd.v) *)
+(* Two nodes, each evolving by ANY sequence of the node operations of Chain/Finality.v (apply a block, delete a block at any named
+   height, restart, clear temp blocks — i.e. fork choice, tie breaks, syncs, failed syncs, restarts), where the post-state
+   maxHeightPrecommited of every accepted Apply is the v_mhpc of the vote model's view of the chain the node then holds and every
+   chain ever held belongs to a universe satisfying the premises of C01_static_safety_decl: at all times, for every height
+   h <= min(finalized height of node 1, of node 2) both nodes serve a block at h and the two blocks are the same.
+   [blk_of] maps a block ID to its BFT content; genesis height 0; ID equality needs [blk_of] injective (the vote model's headers
+   carry no ID). *)
+From LE Require Import BFT.EndToEnd.
+Theorem C01_nodes_agree_on_finalized_blocks :
+  forall (batch : nat) (c : pchange) (s0 : store) (U : chain -> Prop) (byz : list addr) (blk_of : N -> block)
+         (g : N) (ops1 ops2 : list EndToEnd.F.op),
+  (0 < batch)%nat -> init_store batch 0 c = Ok s0 ->
+  universe_decl batch 0 s0 U ->
+  (forall v, In v (map fst (c_vals c)) -> ~ In v byz -> honest U v) ->
+  total_weight (sort_desc (c_vals c)) + wsum (sort_desc (c_vals c)) byz < c_pc c + (total_weight (c_vals c) * 2 / 3 + 1) ->
+  (forall i j, blk_of i = blk_of j -> i = j) ->
+  linked_run batch s0 U blk_of (EndToEnd.F.init g) ops1 -> linked_run batch s0 U blk_of (EndToEnd.F.init g) ops2 ->
+  let n1 := EndToEnd.F.run (EndToEnd.F.init g) ops1 in let n2 := EndToEnd.F.run (EndToEnd.F.init g) ops2 in
+  forall h, h <= EndToEnd.F.fin n1 -> h <= EndToEnd.F.fin n2 ->
+    exists i, EndToEnd.F.block_at n1 h = Some i /\ EndToEnd.F.block_at n2 h = Some i.
+Proof. exact EndToEnd.C01_nodes_agree_on_finalized_blocks. Qed.
+
+(* dynamic validator sets: same conclusion under the model-level QI premise *)
+Theorem C01_nodes_agree_on_finalized_blocks_dynamic_partial :
+  forall (batch : nat) (c : pchange) (s0 : store) (U : chain -> Prop) (blk_of : N -> block)
+         (g : N) (ops1 ops2 : list EndToEnd.F.op),
+  (0 < batch)%nat -> init_store batch 0 c = Ok s0 ->
+  universeD_decl batch 0 s0 U -> QI_model_decl batch 0 s0 U ->
+  linked_run batch s0 U blk_of (EndToEnd.F.init g) ops1 -> linked_run batch s0 U blk_of (EndToEnd.F.init g) ops2 ->
+  let n1 := EndToEnd.F.run (EndToEnd.F.init g) ops1 in let n2 := EndToEnd.F.run (EndToEnd.F.init g) ops2 in
+  forall h, h <= EndToEnd.F.fin n1 -> h <= EndToEnd.F.fin n2 ->
+    exists i1 i2, EndToEnd.F.block_at n1 h = Some i1 /\ EndToEnd.F.block_at n2 h = Some i2 /\ (h = 0 -> i1 = g /\ i2 = g) /\
+                  blk_of i1 = blk_of i2 /\ ((forall i j, blk_of i = blk_of j -> i = j) -> i1 = i2).
+Proof. exact EndToEnd.C01_nodes_agree_on_finalized_blocks_dynamic_partial. Qed.
